@@ -47,7 +47,7 @@ pub fn gt_idx(cs: &CallSet) -> i32 {
 }
 
 /// PL, FT, AB follow GQ in the dictionary
-fn extra_idx(cs: &CallSet, k: i32) -> i32 {
+pub fn extra_idx(cs: &CallSet, k: i32) -> i32 {
     gq_idx(cs) + 1 + k
 }
 
